@@ -526,7 +526,10 @@ def run_children(chk, drv, model, tmp):
     for (name, line, checks), a in zip(cases, out):
         rs = parse_proc(a)
         chk.count(("proc", name))
-        bad = checks(rs) if rs else ("proc-driver-answer", "unparsable answer %r" % a[:200])
+        if rs and rs[0]["_tail"].get("hung") == "1":
+            bad = ("child-hang", "a process launch had not completed after 40 s (children of this case run for at most a few seconds); the driver had to kill the process groups")
+        else:
+            bad = checks(rs) if rs else ("proc-driver-answer", "unparsable answer %r" % a[:200])
         if bad:
             viol(bad[0], "%s: %s" % (name, bad[1]), dict(case=name, line=line, answer=a[:3000]))
     chk.sample(dict(kind="proc", case=cases[0][0], line=cases[0][1], answer=out[0][:300]))
